@@ -661,7 +661,7 @@ where
     for<'a> <T as TryFrom<&'a Bvf<u16, 5>>>::Error: std::fmt::Debug,
     T: for<'a> TryFrom<&'a Bvf<u32, 1>> + for<'a> TryFrom<&'a Bvf<u32, 3>> + for<'a> TryFrom<&'a Bvf<u64, 1>>,
     T: for<'a> TryFrom<&'a Bvf<u64, 2>> + for<'a> TryFrom<&'a Bvf<u64, 5>> + for<'a> TryFrom<&'a Bvf<u128, 1>>,
-    T: for<'a> TryFrom<&'a Bvf<u128, 2>> + for<'a> TryFrom<&'a Bvf<usize, 2>>,
+    T: for<'a> TryFrom<&'a Bvf<u128, 3>> + for<'a> TryFrom<&'a Bvf<usize, 3>>,
     for<'a> <T as TryFrom<&'a Bvd>>::Error: std::fmt::Debug,
     for<'a> <T as TryFrom<&'a Bv>>::Error: std::fmt::Debug,
     for<'a> <T as TryFrom<&'a Bvf<u8, 1>>>::Error: std::fmt::Debug,
@@ -673,8 +673,8 @@ where
     for<'a> <T as TryFrom<&'a Bvf<u64, 2>>>::Error: std::fmt::Debug,
     for<'a> <T as TryFrom<&'a Bvf<u64, 5>>>::Error: std::fmt::Debug,
     for<'a> <T as TryFrom<&'a Bvf<u128, 1>>>::Error: std::fmt::Debug,
-    for<'a> <T as TryFrom<&'a Bvf<u128, 2>>>::Error: std::fmt::Debug,
-    for<'a> <T as TryFrom<&'a Bvf<usize, 2>>>::Error: std::fmt::Debug,
+    for<'a> <T as TryFrom<&'a Bvf<u128, 3>>>::Error: std::fmt::Debug,
+    for<'a> <T as TryFrom<&'a Bvf<usize, 3>>>::Error: std::fmt::Debug,
 {
     for_types!(d2!(rtag, with_arg, T, (op, a)))
 }
@@ -687,8 +687,8 @@ where
     L: PartialEq<Bvf<u16, 2>> + PartialOrd<Bvf<u16, 2>> + PartialEq<Bvf<u32, 1>> + PartialOrd<Bvf<u32, 1>>,
     L: PartialEq<Bvf<u32, 3>> + PartialOrd<Bvf<u32, 3>> + PartialEq<Bvf<u64, 1>> + PartialOrd<Bvf<u64, 1>>,
     L: PartialEq<Bvf<u64, 2>> + PartialOrd<Bvf<u64, 2>> + PartialEq<Bvf<u64, 5>> + PartialOrd<Bvf<u64, 5>>,
-    L: PartialEq<Bvf<u128, 1>> + PartialOrd<Bvf<u128, 1>> + PartialEq<Bvf<u128, 2>> + PartialOrd<Bvf<u128, 2>>,
-    L: PartialEq<Bvf<usize, 2>> + PartialOrd<Bvf<usize, 2>>,
+    L: PartialEq<Bvf<u128, 1>> + PartialOrd<Bvf<u128, 1>> + PartialEq<Bvf<u128, 3>> + PartialOrd<Bvf<u128, 3>>,
+    L: PartialEq<Bvf<usize, 3>> + PartialOrd<Bvf<usize, 3>>,
 {
     for_types!(d2!(rtag, cmpall, L, (a)))
 }
